@@ -13,6 +13,11 @@ from .interp import *
 class BuiltinMixin:
     def call_builtin(self, st: State, b: Builtin, args, kwargs, node=None):
         name = b.name
+        if name == "ext:math.ceil":
+            v = args[0]
+            if isinstance(v, Z) and v.t.kind == "real":
+                return zint(-z3.ToInt(-v.e))        # ceil(x) = -floor(-x); exact on rationals
+            return zint(self.as_int(st, v))
         if name == "ext:copy.copy":
             return self.shallow_copy(st, args[0])
         if name.startswith("ext:"):
@@ -164,6 +169,13 @@ class BuiltinMixin:
             return v
         if isinstance(v, Z) and v.t.kind == "seq":
             return v
+        if isinstance(v, RangeVal):
+            fn = smt.ufunc("range_seq", Int, Int, z3.SeqSort(Int))
+            r = fn(v.lo, v.hi)
+            st.axioms.append(z3.Length(r) == z3.If(v.hi - v.lo > 0, v.hi - v.lo, 0))
+            j = z3.Int("rj!")
+            st.axioms.append(z3.ForAll([j], z3.Implies(z3.And(0 <= j, j < z3.Length(r)), smt.nth_int(r, j) == v.lo + j)))
+            return Z(T("seq", (T("int"),)), r)
         if isinstance(v, Z) and v.t.kind == "dyn":
             # list(bytes-like dynamic value) is only used on byte strings handed to decode
             raise OutsideSubset("list() of dynamic value")
